@@ -813,6 +813,10 @@ r_expand(const Expansion &expansion, const vector_string &args,
   bool left_operand_empty = false;
   bool chain_space = false;
 
+  // The white space in front of something that came out empty (an empty
+  // argument, an unused __VA_OPT__) still separates what surrounds it.
+  bool carried_space = false;
+
   for (const ExpansionNode &node : expansion) {
     const bool paste = node._paste && !left_operand_empty;
     const size_t size_before = result.size();
@@ -822,7 +826,7 @@ r_expand(const Expansion &expansion, const vector_string &args,
     if (!node._paste) {
       chain_space = node._space;
     }
-    const bool space = node._paste ? chain_space : node._space;
+    const bool space = (node._paste ? chain_space : node._space) || carried_space;
     auto append = [&](const string &piece) {
       if (piece.empty()) {
         return;
@@ -892,6 +896,7 @@ r_expand(const Expansion &expansion, const vector_string &args,
     }
 
     const bool came_out_empty = (result.size() == size_before);
+    carried_space = came_out_empty && space;
     left_operand_empty = node._paste ? (left_operand_empty && came_out_empty)
                                      : came_out_empty;
   }
